@@ -149,6 +149,30 @@ def run_impl(case: dict) -> dict:
     out, _, _, single = _call(api, case, 0, None)
     if single is not None:
         out["single"], out["single_again"] = single[1], _read_single(case, single[0])
+    if case.get("alone_too"):
+        out["alone"] = _alone(case)
+    return out
+
+
+def _alone(case):
+    """The statement's right-hand side on the real code: `clustering independently at that threshold`, the threshold handed over in the
+    same form (weight / probability) to cluster_pairwise_predictions_at_threshold, on a database API of its own."""
+    from splink.internals.clustering import cluster_pairwise_predictions_at_threshold
+
+    from harness import impl
+
+    api = impl.make_api(case["engine"], threads=2)
+    nrows, ntypes, erows, etypes, node_col, left, right = _tables(case)
+    nodes, edges_in = _materialise(api, nrows, ntypes, "raw_pandas", "alone_nodes", 0), _materialise(api, erows, etypes, "raw_pandas", "alone_edges", 0)
+    ckw = {}
+    if left is not None:
+        ckw["edge_id_column_name_left"] = left
+    if right is not None:
+        ckw["edge_id_column_name_right"] = right
+    out = []
+    for t in threshold_list(case):
+        s = cluster_pairwise_predictions_at_threshold(nodes, edges_in, api, node_col, **{"threshold_match_weight" if case["weights"] else "threshold_match_probability": t}, **ckw)
+        out.append(_read_single(case, s))
     return out
 
 
@@ -312,6 +336,15 @@ def call_verdict(case: dict, r: dict) -> str | None:
         return v
     if r.get("again_same") is False:
         return "result kept by the caller changed under a later call: " + (verdict(case, dict(r, **r["again"])) or "it still satisfies the property but reads differently")
+    if "alone" in r:
+        # thresholds in the order given; the multi-threshold columns are in ascending order of DISTINCT probabilities
+        given = [(2.0**w) / (1.0 + 2.0**w) for w in case["ts"]] if case["weights"] else [float(t) for t in case["ts"]]
+        for t, rows in zip(given, r["alone"]):
+            c = dict(case, thr=t, thr_kind="prob", entry="fn")
+            v = c05.oracle_verdict(c, rows)
+            if v is not None:
+                form = "weight" if case["weights"] else "probability"
+                return f"clustering independently at the {form} threshold {case['ts'][given.index(t)]} (cluster_pairwise_predictions_at_threshold) differs from the partition at that threshold: " + v
     if "single" in r:
         c = dict(case, thr=min(probs_of(case)), thr_kind="prob", entry="fn")
         for which in ("single", "single_again"):
@@ -468,6 +501,12 @@ def gen_cases(ctx):
         pick_data_values(rng, base)
         ts, weights = pick_thresholds(rng, base)
         base.update(ts=ts, weights=weights, stats=rng.random() < 0.3)
+        if weights and base["edges"] and rng.random() < 0.6:
+            # pairs whose probability IS that of a weight threshold (a pair scored with exactly that weight): they belong to the clusters
+            for _ in range(rng.randint(1, 3)):
+                j, w = rng.randrange(len(base["edges"])), rng.choice(ts)
+                base["edges"][j] = (base["edges"][j][0], base["edges"][j][1], (2.0**w) / (1.0 + 2.0**w))
+        base["alone_too"] = rng.random() < (0.6 if weights else 0.15)
         pick_call_shape(rng, base)
         return base
 
